@@ -616,3 +616,133 @@ def gaussian_cascade_replay(key="county_fips"):
     out["calls"] = [(c[0], len(c[1]), len(c[2]), len(c[3])) for c in calls]
     out["ok"] = bool(second and parent and second[0][1] == want_cal and second[0][2] == want_cal and second[0][3] == want_non and parent[0][1] == sorted(cal.geographic_unit_fips) and parent[0][3] == sorted(non.geographic_unit_fips))
     return out
+
+
+# ---- gaussian aggregate intervals: scenario builder + oracle written from the statement (also used by bounded/c15_gaussian.py)
+def gaussian_scene(layout, nonrep_groups, big_partial, rng, key="county_fips"):
+    """layout: {(state, sub): n_calibration}; nonrep_groups: list of (state, sub) with outstanding units"""
+    import numpy as np
+    import pandas as pd
+
+    E = "turnout"
+    LAST, RES = f"last_election_results_{E}", f"results_{E}"
+    rows = []
+    for (st, sub), n in layout.items():
+        for i in range(n):
+            last = float(rng.integers(300, 3000))
+            rows.append({"postal_code": st, key: sub, "geographic_unit_fips": f"c_{st}{sub}_{i}", LAST: last, "lower_bounds": float(rng.normal(0.02, 0.05)), "upper_bounds": float(rng.normal(0.02, 0.05))})
+    conf = pd.DataFrame(rows, columns=["postal_code", key, "geographic_unit_fips", LAST, "lower_bounds", "upper_bounds"])
+    rep = conf[["postal_code", key, "geographic_unit_fips", LAST]].copy()
+    rep[RES] = np.round(rep[LAST] * 1.05)
+    rep["reporting"] = 1
+    nr = []
+    for (st, sub) in nonrep_groups:
+        for i in range(2):
+            last = float(rng.integers(300, 3000))
+            partial = np.round(last * (2.5 if big_partial and i == 0 else 0.2))
+            nr.append({"postal_code": st, key: sub, "geographic_unit_fips": f"n_{st}{sub}_{i}", LAST: last, RES: partial, "reporting": 0})
+    non = pd.DataFrame(nr, columns=["postal_code", key, "geographic_unit_fips", LAST, RES, "reporting"])
+    unx = pd.DataFrame({"postal_code": ["AA"], key: ["x9"], "geographic_unit_fips": ["x9_1"], RES: [17.0], "reporting": [0]})
+    return conf, rep, non, unx
+
+
+def gaussian_oracle(conf, rep, non, unx, aggregate, alpha, lo_u, hi_u):
+    """the statement of C15, computed with plain loops"""
+    import numpy as np
+    import pandas as pd
+    from scipy import stats
+
+    from elexmodel.utils import math_utils
+
+    E = "turnout"
+    LAST, RES = f"last_election_results_{E}", f"results_{E}"
+
+    def stats_of(cal):
+        w = (cal[LAST] / cal[LAST].sum()).to_numpy()
+        return dict(
+            mu_lo=math_utils.weighted_median(cal.lower_bounds.values, w),
+            mu_hi=math_utils.weighted_median(cal.upper_bounds.values, w),
+            s_lo=math_utils.boot_sigma(cal.lower_bounds.values, conf=(3 + alpha) / 4, seed=4191),
+            s_hi=math_utils.boot_sigma(cal.upper_bounds.values, conf=(3 + alpha) / 4, seed=4191),
+            k=math_utils.compute_inflate(cal[LAST]),
+        )
+
+    T = min(10, len(conf))
+    out = {}
+    keys = sorted(set(map(tuple, non[aggregate].values.tolist())) | set(map(tuple, rep[aggregate].values.tolist())) | (set(map(tuple, unx[aggregate].values.tolist())) if "county_classification" not in aggregate else set()))
+    for g in keys:
+        mn = (non[aggregate].apply(tuple, axis=1) == g) if len(non) else pd.Series([], dtype=bool)
+        counted = rep.loc[rep[aggregate].apply(tuple, axis=1) == g, RES].sum() + (unx.loc[unx[aggregate].apply(tuple, axis=1) == g, RES].sum() if "county_classification" not in aggregate else 0)
+        if not mn.any():
+            out[g] = (counted, counted)
+            continue
+        cal_g = conf[conf[aggregate].apply(tuple, axis=1) == g]
+        if len(cal_g) >= T:
+            cal = cal_g
+        else:
+            cal_s = conf[conf["postal_code"] == g[0]]
+            cal = cal_s if (len(aggregate) > 1 and len(cal_s) >= T) else conf
+        s = stats_of(cal)
+        wts = non.loc[mn, LAST].to_numpy()
+        q = (3 + alpha) / 4
+        sw, ssw = wts.sum(), (wts**2).sum()
+        lb = (wts * lo_u[mn.to_numpy()]).sum() - stats.norm.ppf(q, loc=sw * s["mu_lo"], scale=s["s_lo"] * np.sqrt(ssw + s["k"] * sw**2))
+        ub = (wts * hi_u[mn.to_numpy()]).sum() + stats.norm.ppf(q, loc=sw * s["mu_hi"], scale=s["s_hi"] * np.sqrt(ssw + s["k"] * sw**2))
+        partial = non.loc[mn, RES].sum()
+        out[g] = (np.round(max(lb + sw, partial) + counted), np.round(max(ub + sw, partial) + counted))
+    return keys, out
+
+
+def gaussian_aggregate_replay(keys, alpha=0.9):
+    """REAL GaussianElectionModel.get_aggregate_predictions / get_aggregate_prediction_intervals on a few layouts that
+    have, in one table, a group served by its own model, one served by its state, one served by all units, and a group
+    that only has outstanding units -- compared with the oracle written from the statement"""
+    import numpy as np
+
+    from elexmodel.models.ConformalElectionModel import PredictionIntervals
+    from elexmodel.models.GaussianElectionModel import GaussianElectionModel
+
+    E = "turnout"
+    keys = list(keys)
+    key = keys[-1] if len(keys) > 1 else "county_fips"
+    rng = np.random.default_rng(5)
+    layouts = [
+        {("AA", "a1"): 25, ("AA", "a2"): 3, ("BB", "b1"): 3},
+        {("AA", "a1"): 10, ("AA", "a2"): 0, ("BB", "b1"): 11},
+        {("AA", "a1"): 3, ("AA", "a2"): 3},
+        {("AA", "a1"): 12, ("AA", "a2"): 14, ("BB", "b1"): 2},
+    ]
+    out = {"exc": None, "ok": True, "mismatches": []}
+    for li, layout in enumerate(layouts):
+        groups = list(layout)
+        for nonrep_groups in (groups, groups[:1] + [("AA", "only_outstanding")]):
+            for big in (False, True):
+                conf, rep, non, unx = gaussian_scene(layout, nonrep_groups, big, rng, key=key)
+                m = GaussianElectionModel({"save_conformalization": False, "election_id": "e", "office": "S", "geographic_unit_type": "county"})
+                lo_u, hi_u = rng.normal(-0.05, 0.02, len(non)), rng.normal(0.08, 0.02, len(non))
+                m.alpha_to_nonreporting_lower_bounds[alpha] = lo_u.copy()
+                m.alpha_to_nonreporting_upper_bounds[alpha] = hi_u.copy()
+                for f_ in (rep, non, unx):
+                    f_[f"pred_{E}"] = f_[f"results_{E}"]
+                try:
+                    est = m.get_aggregate_predictions(rep, non, unx, keys, E)
+                    pi = m.get_aggregate_prediction_intervals(rep, non, unx, keys, alpha, PredictionIntervals(None, None, conf), E)
+                except Exception as e:  # noqa
+                    out["exc"] = f"{type(e).__name__}: {e}"
+                    out["ok"] = False
+                    return out
+                gk, exp = gaussian_oracle(conf, rep, non, unx, keys, alpha, lo_u, hi_u)
+                got_keys = list(map(tuple, est[keys].values.tolist()))
+                lower, upper = np.asarray(pi[0], dtype=float), np.asarray(pi[1], dtype=float)
+                if got_keys != gk or len(lower) != len(gk) or not (np.isfinite(lower).all() and np.isfinite(upper).all()):
+                    out["ok"] = False
+                    out["mismatches"].append({"layout": li, "rows": [list(k) for k in got_keys], "expected_rows": [list(k) for k in gk]})
+                    continue
+                for i, g in enumerate(gk):
+                    el, eu = exp[g]
+                    if abs(lower[i] - el) > 1 + 1e-6 * abs(el) or abs(upper[i] - eu) > 1 + 1e-6 * abs(eu):
+                        out["ok"] = False
+                        out["mismatches"].append({"layout": li, "group": list(g), "observed": [float(lower[i]), float(upper[i])], "expected": [float(el), float(eu)]})
+                        break
+    out["mismatches"] = out["mismatches"][:4]
+    return out
